@@ -36,6 +36,10 @@ type csched struct {
 	cur     int
 	active  bool
 	steps   int
+	// stall[i] > 0: worker i is passed over for that many scheduling steps while any other
+	// worker can run (set when the flusher parks inside a file call, so that readers get to
+	// run against the half-written state); drawn from r, so a seed still fixes the schedule
+	stall map[int]int
 }
 
 func (s *csched) yield() {
@@ -69,6 +73,19 @@ func (s *csched) run(bodies []func()) bool {
 		for i, w := range s.workers {
 			if !w.done {
 				cand = append(cand, i)
+			}
+		}
+		if len(s.stall) > 0 {
+			var free []int
+			for _, c := range cand {
+				if s.stall[c] > 0 {
+					s.stall[c]--
+				} else {
+					free = append(free, c)
+				}
+			}
+			if len(free) > 0 {
+				cand = free
 			}
 		}
 		i := cand[s.r.Intn(len(cand))]
@@ -120,7 +137,16 @@ func (w *World) concPhase(r *rand.Rand, sid int, mut []string, readers [][]strin
 	}
 	opSeq := map[int]int{}
 	if mf != nil {
-		mf.Yield = sched.yield
+		mf.Yield = func() {
+			if sched.active && sched.cur == 1 && r.Intn(3) == 0 {
+				// the flusher is about to make a file call: let the others run for a while first
+				if sched.stall == nil {
+					sched.stall = map[int]int{}
+				}
+				sched.stall[1] = 2 + r.Intn(14)
+			}
+			sched.yield()
+		}
 		mf.Who = func() string { return fmt.Sprintf("w%d.%d", sched.cur, opSeq[sched.cur]) }
 	}
 	defer func() {
@@ -273,7 +299,17 @@ func cmdC05(args []string) {
 			k := g.key()
 			run(fmt.Sprintf("set 1 %s %s %s %d", hx([]byte(nm)), hx(k), hx(g.val()), g.prio(nm, k)))
 		}
-		if !mem {
+		// flush-race histories: everything stays dirty, the phase is mostly flushes against readers
+		// that walk the whole collection (a walk evicts what it leaves) and then read values
+		race := !mem && r.Intn(3) == 0
+		if race && len(names) > 0 {
+			for i, n := 0, 3+r.Intn(10); i < n; i++ {
+				nm := names[r.Intn(len(names))]
+				k := g.key()
+				run(fmt.Sprintf("set 1 %s %s %s %d", hx([]byte(nm)), hx(k), hx(g.val()), g.prio(nm, k)))
+			}
+		}
+		if !mem && !race {
 			run("flush 1")
 			if r.Intn(2) == 0 {
 				run("close 1")
@@ -324,6 +360,36 @@ func cmdC05(args []string) {
 		nFlush := 0
 		if !mem {
 			nFlush = r.Intn(3)
+		}
+		if race {
+			nFlush = 2 + r.Intn(2)
+			if len(mut) > 3 {
+				mut = mut[:r.Intn(4)]
+			}
+			readers = nil
+			for ri, nr := 0, 2+r.Intn(2); ri < nr; ri++ {
+				var p []string
+				for i, n := 0, 3+r.Intn(6); i < n; i++ {
+					nm := hx([]byte(names[r.Intn(len(names))]))
+					if r.Intn(2) == 0 {
+						p = append(p, fmt.Sprintf("visit 1 %s desc %s %d -1", nm, hx([]byte{0xff, 0xff}), r.Intn(2)))
+					} else {
+						p = append(p, fmt.Sprintf("visit 1 %s asc %s %d -1", nm, hx([]byte{0}), r.Intn(2)))
+					}
+					switch r.Intn(4) {
+					case 0:
+						p = append(p, fmt.Sprintf("get 1 %s %s", nm, hx(g.key())))
+					case 1:
+						p = append(p, fmt.Sprintf("min 1 %s 1", nm))
+					case 2:
+						p = append(p, fmt.Sprintf("max 1 %s 1", nm))
+					case 3:
+						p = append(p, fmt.Sprintf("visit 1 %s asc %s 1 -1", nm, hx([]byte{0})))
+					}
+				}
+				readers = append(readers, p)
+			}
+			extra["race_histories"]++
 		}
 		recs, ok, steps := w.concPhase(r, 1, mut, readers, nFlush)
 		extra["sched_steps"] += steps
